@@ -65,18 +65,20 @@ def run(ctx: Context) -> None:
     mi = Matcher(ctx, ip)
     poly_p = ip.params[1]
     inter = mi.stmt(f"$x = {poly_p}.intersection(self.line)") or mi.stmt(f"$x = self.line.intersection({poly_p})")
-    tests = [n for n in walk_no_nested(ip.node) if isinstance(n, ast.If) and isinstance(n.test, ast.Call) and dotted(n.test.func) == 'isinstance']
+    # (if/else statements assigning one name are normalised to a conditional expression)
+    split = [n for n in walk_no_nested(ip.node) if isinstance(n, ast.Assign) and isinstance(n.value, ast.IfExp)
+             and isinstance(n.value.test, ast.Call) and dotted(n.value.test.func) == 'isinstance']
+    tests = split
     ok = False
-    if len(tests) == 1 and inter is not None:
-        t = tests[0].test
+    if len(split) == 1 and inter is not None:
+        t = split[0].value.test
         types = set()
         if len(t.args) == 2 and mi.match('$x', t.args[0], commit=False):
             tt = t.args[1]
             types = {norm_text(e).rsplit('.', 1)[-1] for e in (tt.elts if isinstance(tt, ast.Tuple) else [tt])}
-        ok = {'GeometryCollection', 'MultiLineString'} <= types and mi.stmt('$geoms = $x.geoms', within=tests[0]) is not None \
-            and any(mi.match('$geoms = [$x]', s, commit=False) for s in tests[0].orelse)
+        ok = {'GeometryCollection', 'MultiLineString'} <= types and mi.match('$geoms = $x.geoms if $$t else [$x]', split[0])
     ctx.check('R18.1', ok, "multi-part results (GeometryCollection and MultiLineString) are split into their parts; a single geometry is taken as is", ip,
-              tests[0] if tests else ip.node, construct=f"multi-part test: {norm_text(tests[0].test) if tests else 'absent'}")
+              tests[0] if tests else ip.node, construct=f"multi-part split: {norm_text(tests[0]) if tests else 'absent'}")
     ok = inter is not None and bool(ip.returns()) and all(
         mi.match('[$g for $g in $geoms if isinstance($g, shapely.LineString)]', r.value, commit=False) for r in ip.returns())
     ctx.check('R18.1', bool(ok), "the pieces are the LineString parts of polygon ∩ path", ip, ip.node,
